@@ -65,6 +65,9 @@ Definition parse_u32 (s : str) : option N :=
 
 (* value++ on a uint32: wraps at 2^32 *)
 Definition incr32 (v : N) : N := (v + 1) mod two32.
+(* "value++; if value == 0 { err = ...; return }": [None] is the error return, taken exactly
+   when the uint32 wrapped, i.e. when the stored counter stood at 2^32-1 *)
+Definition next32 (v : N) : option N := let n := incr32 v in if n =? 0 then None else Some n.
 
 (* ---------- the Consul key: value bytes + ModifyIndex, and the raft index ---------- *)
 Record store := mkStore { st_kv : option (str * N); st_clock : N }.
@@ -102,14 +105,20 @@ Inductive cstate :=
 | Dead.                       (* died; returns nothing *)
 
 (* what GetNextUInt32 does with the answer to its read *)
+Definition bump (v idx : N) : cstate :=
+  match next32 v with
+  | Some n => HasRead n idx
+  | None => Done None                          (* counter exhausted: returned before any CAS *)
+  end.
+
 Definition after_read (kv : option (str * N)) : cstate :=
   match kv with
   | None => match parse_u32 [48] with          (* kvp = {Value: "0", ModifyIndex: 0} *)
-            | Some v => HasRead (incr32 v) 0
+            | Some v => bump v 0
             | None => Done None
             end
   | Some (b, idx) => match parse_u32 b with
-                     | Some v => HasRead (incr32 v) idx
+                     | Some v => bump v idx
                      | None => Done None       (* ParseUint error: returned before any CAS *)
                      end
   end.
@@ -203,9 +212,7 @@ Definition step_ok (st : state) (x : step) : Prop :=
   | SPut v => exists m, parse_u32 v = Some m /\ cur (s_store st) <= m
         (* other writers never lower the counter and never store a non-number *)
   | SDel => cur (s_store st) = 0
-  | SServe i => get (s_callers st) i = Idle -> cur (s_store st) < max_u32
-        (* the counter is not exhausted when it is read *)
-  | _ => True
+  | _ => True   (* nothing is assumed about callers, failures, deaths, or the counter's value *)
   end.
 
 Fixpoint env_ok (st : state) (sched : list step) : Prop :=
@@ -214,62 +221,47 @@ Fixpoint env_ok (st : state) (sched : list step) : Prop :=
   | x :: r => step_ok st x /\ env_ok (do_step st x) r
   end.
 
-(* the same hypothesis without the exhaustion clause / without the foreign-writer clause,
-   used to show that each clause is needed *)
-Definition step_ok_nowrapclause (st : state) (x : step) : Prop :=
-  match x with
-  | SPut v => exists m, parse_u32 v = Some m /\ cur (s_store st) <= m
-  | SDel => cur (s_store st) = 0
-  | _ => True
-  end.
-Fixpoint env_ok_nowrapclause (st : state) (sched : list step) : Prop :=
-  match sched with
-  | [] => True
-  | x :: r => step_ok_nowrapclause st x /\ env_ok_nowrapclause (do_step st x) r
-  end.
-Definition step_ok_noforeignclause (st : state) (x : step) : Prop :=
-  match x with
-  | SServe i => get (s_callers st) i = Idle -> cur (s_store st) < max_u32
-  | _ => True
-  end.
-Fixpoint env_ok_noforeignclause (st : state) (sched : list step) : Prop :=
-  match sched with
-  | [] => True
-  | x :: r => step_ok_noforeignclause st x /\ env_ok_noforeignclause (do_step st x) r
-  end.
-
-(* ---------- file backend: os.Stat / WriteFile "0" ; ReadFile ; WriteFile, no lock ---------- *)
+(* ---------- file backend: Lock ; os.Stat / WriteFile "0" ; ReadFile ; WriteFile ; Unlock ---------- *)
+(* All callers are goroutines of ONE process using ONE Service: its runCounterMu is the lock.
+   Two processes sharing a working directory are not covered (nor is it by the code). *)
 Inductive fcstate :=
 | FIdle
-| FChecked                 (* the file exists (created with "0" if it did not) *)
-| FHasRead (n : N)         (* holds the incremented value *)
+| FChecked                 (* holds the lock; the file exists (created with "0" if it did not) *)
+| FHasRead (n : N)         (* holds the lock and the incremented value *)
 | FDone (r : option N).
 
-Record fstate := mkF { f_file : option str; f_callers : list (N * fcstate); f_rets : list (N * N) }.
+Record fstate := mkF { f_file : option str; f_lock : option N;
+                       f_callers : list (N * fcstate); f_rets : list (N * N) }.
 
 Definition fget (cs : list (N * fcstate)) (i : N) : fcstate :=
   match assocN i cs with Some c => c | None => FIdle end.
 
-(* one step of caller i *)
+(* one step of caller i; a caller that finds the mutex taken does not move *)
 Definition fstep (st : fstate) (i : N) : fstate :=
   let cs := f_callers st in
   match fget cs i with
   | FIdle =>
-      mkF (match f_file st with None => Some [48] | Some b => Some b end)
-          ((i, FChecked) :: cs) (f_rets st)
+      match f_lock st with
+      | Some _ => st
+      | None => mkF (match f_file st with None => Some [48] | Some b => Some b end) (Some i)
+                    ((i, FChecked) :: cs) (f_rets st)
+      end
   | FChecked =>
       match f_file st with
-      | None => mkF None ((i, FDone None) :: cs) (f_rets st)
+      | None => mkF None None ((i, FDone None) :: cs) (f_rets st)
       | Some b => match parse_u32 b with
-                  | None => mkF (f_file st) ((i, FDone None) :: cs) (f_rets st)
-                  | Some v => mkF (f_file st) ((i, FHasRead (incr32 v)) :: cs) (f_rets st)
+                  | None => mkF (f_file st) None ((i, FDone None) :: cs) (f_rets st)
+                  | Some v => match next32 v with
+                              | None => mkF (f_file st) None ((i, FDone None) :: cs) (f_rets st)
+                              | Some n => mkF (f_file st) (f_lock st) ((i, FHasRead n) :: cs) (f_rets st)
+                              end
                   end
       end
-  | FHasRead n => mkF (Some (fmt_u n)) ((i, FDone (Some n)) :: cs) ((i, n) :: f_rets st)
+  | FHasRead n => mkF (Some (fmt_u n)) None ((i, FDone (Some n)) :: cs) ((i, n) :: f_rets st)
   | FDone _ => st
   end.
 
-Definition finit (f : option str) : fstate := mkF f [] [].
+Definition finit (f : option str) : fstate := mkF f None [] [].
 Definition frun (st : fstate) (sched : list N) : fstate := fold_left fstep sched st.
 (* numbers returned, in the order of the writes *)
 Definition fhanded (st : fstate) : list N := map snd (rev (f_rets st)).
@@ -277,6 +269,30 @@ Definition fhanded (st : fstate) : list N := map snd (rev (f_rets st)).
 Definition fserial (ids : list N) : list N := flat_map (fun i => [i; i; i]) ids.
 Definition fcur (f : option str) : N :=
   match f with Some b => match parse_u32 b with Some v => v | None => 0 end | None => 0 end.
+
+(* the same read-modify-write WITHOUT the mutex (the code before the repair): used only to show
+   that the lock is what makes the theorem true *)
+Definition fstep_nolock (st : fstate) (i : N) : fstate :=
+  let cs := f_callers st in
+  match fget cs i with
+  | FIdle =>
+      mkF (match f_file st with None => Some [48] | Some b => Some b end) None
+          ((i, FChecked) :: cs) (f_rets st)
+  | FChecked =>
+      match f_file st with
+      | None => mkF None None ((i, FDone None) :: cs) (f_rets st)
+      | Some b => match parse_u32 b with
+                  | None => mkF (f_file st) None ((i, FDone None) :: cs) (f_rets st)
+                  | Some v => match next32 v with
+                              | None => mkF (f_file st) None ((i, FDone None) :: cs) (f_rets st)
+                              | Some n => mkF (f_file st) None ((i, FHasRead n) :: cs) (f_rets st)
+                              end
+                  end
+      end
+  | FHasRead n => mkF (Some (fmt_u n)) None ((i, FDone (Some n)) :: cs) ((i, n) :: f_rets st)
+  | FDone _ => st
+  end.
+Definition frun_nolock (st : fstate) (sched : list N) : fstate := fold_left fstep_nolock sched st.
 
 (* ---------- START_ACTIVITY in the environment state machine (before_event only) ---------- *)
 (* environment states as numbers: 0 STANDBY 1 DEPLOYED 2 CONFIGURED 3 RUNNING 4 DONE 5 ERROR *)
@@ -349,15 +365,15 @@ Inductive c07_case :=
        (olog : list lentry) (oerr : bool) (ostate : N) (orn : N)
 (* file backend, k calls one after the other on a file with the given initial content *)
 | CFileSerial (file0 : option str) (k : N) (ores : list (option N)) (ofile : option str)
-(* file backend under concurrent calls: number of duplicates seen among returned numbers *)
-| CFileStress (goroutines calls : N) (dups : N).
+(* file backend under concurrent calls, every round from a file "0": number of duplicates seen
+   among returned numbers, number of failed calls, the file after the last round *)
+| CFileStress (goroutines calls : N) (dups errs : N) (ofile : option str).
 
 Definition model_sched (clock0 k : N) (sched : list step) :=
   let st := run (init (mkStore None clock0)) sched in
   (rev (s_log st), map (fun i => cres_of (get (s_callers st) i)) (nseq (N.to_nat k) 0),
    st_kv (s_store st)).
 
-Definition fcall3 (st : fstate) (i : N) : fstate := fstep (fstep (fstep st i) i) i.
 Definition fres (st : fstate) (i : N) : option N :=
   match fget (f_callers st) i with FDone r => r | _ => None end.
 
@@ -385,15 +401,18 @@ Definition corr07 (c : c07_case) : bool :=
       let st := frun (finit file0) (fserial ids) in
       list_eqb (option_eqb N.eqb) (map (fres st) ids) ores &&
       option_eqb str_eqb (f_file st) ofile
-  | CFileStress _ _ _ => true
+  | CFileStress g k _ errs ofile =>
+      (* under the mutex every schedule of g*k calls on "0" ends with no failed call and the
+         counter at g*k (C07_file_backend_dense) *)
+      (errs =? 0) && (fcur ofile =? g * k)
   end.
 
 (* ---------- the property evaluated on what the implementation did ---------- *)
 (* codes: 1 duplicate number; 2 a number written to the counter is not larger than the value it
    replaced; 3 a caller returned a number that it did not itself write with an applied,
    answered CAS; 4 START_ACTIVITY went on although no number was obtained (or left a run number /
-   another state behind); 5 the uint32 wrap: 4294967295 is followed by 0; 6 duplicate from the
-   file backend under concurrent calls; 7 file backend, sequential calls: not strictly
+   another state behind); 5 the uint32 wrap: 4294967295 is followed by 0 (repaired: the call must
+   fail); 6 duplicate from the file backend under concurrent calls (repaired: mutex); 7 file backend, sequential calls: not strictly
    increasing; 8 the environment's run number is not the number obtained from the counter *)
 
 Definition val_of (b : option str) : option N :=
@@ -498,7 +517,7 @@ Definition mon07 (c : c07_case) : N :=
   | CFileSerial file0 _ ores _ =>
       if incr_from (fcur file0) ores then 0
       else if existsb (fun r => match r with Some 0 => true | _ => false end) ores then 5 else 7
-  | CFileStress _ _ dups => if dups =? 0 then 0 else 6
+  | CFileStress _ _ dups _ _ => if dups =? 0 then 0 else 6
   end.
 
 (* ---------- which decision points a case went through (bit mask) ---------- *)
@@ -509,7 +528,7 @@ Definition tag_log (l : list lentry) : N :=
   bit (existsb (fun e => match e with LPut _ _ _ m _ => negb (m =? 0) | LGet _ _ m _ => negb (m =? 0) | _ => false end) l) 4 + (* error / lost / crash *)
   bit (existsb (fun e => match e with LFPut _ => true | LFDel => true | _ => false end) l) 8 +  (* foreign writer *)
   bit (existsb (fun e => match e with LGet _ _ 0 (Some (b, _)) => match parse_u32 b with None => true | _ => false end | _ => false end) l) 16 + (* unparsable value read *)
-  bit (existsb (fun e => match e with LPut _ _ [48] _ true => true | _ => false end) l) 32 + (* wrapped *)
+  bit (existsb (fun e => match e with LGet _ _ 0 (Some (b, _)) => match parse_u32 b with Some v => v =? max_u32 | None => false end | _ => false end) l) 32 + (* exhausted counter read *)
   bit (2 <=? Nlen (filter (fun e => match e with LPut _ _ _ 0 true => true | _ => false end) l)) 64. (* at least two numbers handed out *)
 
 Definition tag07 (c : c07_case) : N :=
@@ -519,8 +538,8 @@ Definition tag07 (c : c07_case) : N :=
   | CFileSerial file0 _ ores _ =>
       2000 + bit (match file0 with None => true | _ => false end) 1
            + bit (existsb (fun r => match r with None => true | _ => false end) ores) 2
-           + bit (existsb (fun r => match r with Some 0 => true | _ => false end) ores) 4
-  | CFileStress _ _ dups => 3000 + bit (negb (dups =? 0)) 1
+           + bit ((fcur file0 =? max_u32) || (fcur file0 <? max_u32) && (max_u32 <? fcur file0 + Nlen ores)) 4 (* a call found the counter exhausted *)
+  | CFileStress _ _ dups _ _ => 3000 + bit (negb (dups =? 0)) 1
   end.
 
 Definition report07 := report corr07 mon07 tag07.
